@@ -991,7 +991,7 @@ func (jf *JSONFamily) installArrayUnInner(f *ssa.Function, jt *jsonType) {
 		st := env.st
 		m := e.val[f.Params[1]]
 		idx, ok1 := env.vars["rangeindex"]
-		out, ok2 := env.vars["out"]
+		out, ok2 := phiOfType(env, func(t types.Type) bool { return types.Identical(t, A) })
 		if !ok1 || !ok2 {
 			return []NamedFormula{{Name: "invariant#shape", Props: []string{"C08"}, Formula: "false"}}
 		}
